@@ -511,8 +511,14 @@ def generate(prop, seed, tier="quick", fault_free=False):
         elif r < 0.88:
             ops.append({"op": "restart",
                         "epoch": "child" if (tier == "thorough" and w.random() < 0.05) else "module"})
-        elif r < 0.93:
+        elif r < 0.92:
             ops.append({"op": "warm", "k": w.choice([1, 1, 2, 3, 5, 9, 40, 300])})
+        elif r < 0.935:
+            # boundary probing: the deepest query the process can still simplify must still be
+            # simplified *correctly* (found by bisection at run time, then served)
+            g = Gen(w, names, reuse, helpers)
+            ops.append({"op": "serve_deep", "x": g.fresh("stage"), "s": g.fresh("helper"),
+                        "shape": w.randrange(2)})
         else:
             # a query the simplifier rejects with its dedicated index error, raised from inside
             # nested lambdas / a called lambda: whatever it leaves behind meets the next query
@@ -571,7 +577,28 @@ def parse_query(text):
     return change_extension_functions_to_calls(ast.parse(text, mode="eval").body)
 
 
+class _roomy_stack:
+    "Harness work (copying, compiling, evaluating deep trees) gets a roomy recursion limit."
+
+    def __enter__(self):
+        import sys
+
+        self.old = sys.getrecursionlimit()
+        sys.setrecursionlimit(max(self.old, 20000))
+
+    def __exit__(self, *a):
+        import sys
+
+        sys.setrecursionlimit(self.old)
+        return False
+
+
 def ev(a, data):
+    with _roomy_stack():
+        return _ev(a, data)
+
+
+def _ev(a, data):
     try:
         return ("ok", le.norm(le.evaluate(a, {"ds": data})))
     except le.Budget:
@@ -765,6 +792,45 @@ class Node:
                 self.stat("fault_restart")
                 self.restarted_since_argn_made = True
                 self.events.append("restart")
+            elif k == "serve_deep":
+                if op["x"] == op["s"]:
+                    continue
+
+                def deep(n):
+                    tail = " + 1" * n
+                    if op["shape"] == 0:
+                        return f"Select(ds, lambda {op['x']}: (lambda {op['s']}: {op['s']}{tail})({op['x']}.x))"
+                    return (f"Select(ds, lambda {op['x']}: (lambda {op['s']}: ({op['s']}{tail}, {op['s']}))"
+                            f"({op['x']}.w))")
+
+                def ok(n):
+                    try:
+                        simplify(self.mod, parse_query(deep(n)))
+                        return True
+                    except RecursionError:
+                        return False
+                    except Exception:
+                        return False
+
+                lo, hi = 8, 1200
+                if not ok(lo):
+                    continue
+                while hi - lo > 1:  # largest depth that does not overflow
+                    mid = (lo + hi) // 2
+                    if ok(mid):
+                        lo = mid
+                    else:
+                        hi = mid
+                self.stat("probe_deepest_query_served")
+                self.stat("deepest_query_terms", lo)
+                for n in sorted({lo, lo - 1, lo - 7, max(8, lo - 40)}):
+                    text = deep(n)
+                    refs = self.refs_for(text)
+                    self.resolved.append({"op": "serve", "q": text})
+                    rec = self.serve(text, refs, "deep", text)
+                    if rec:
+                        rec["out"] = "<unprintable>"  # too deep to round-trip
+                        self.served.append(rec)
             elif k == "serve_bad":
                 inst = None
                 if self.case["config"].get("reuse_instance"):
@@ -826,7 +892,8 @@ def execute(case):
     n.stats["epochs_started"] = n.stats.get("epochs_started", 0) + len(epochs)
     kinds = [o["op"] for o in case["ops"]]
     texts = "\n".join(o.get("q", "") for o in case["ops"])
-    nontrivial = any(k in ("restart", "roundtrip", "reserve", "extend", "serve_bad") for k in kinds) or bool(
+    nontrivial = any(k in ("restart", "roundtrip", "reserve", "extend", "serve_bad", "serve_deep")
+                     for k in kinds) or bool(
         n.stats.get("served_with_argN_binder"))
     if viol is not None:
         viol["detail"] = json.loads(_ADDR.sub("0x?", json.dumps(viol["detail"], default=repr)))
